@@ -197,3 +197,81 @@ func VerifC11Atomic() {
 	}
 	nd.Reach("end")
 }
+
+// VerifC11Aborted: a call that aborts - the library reports malformed read expressions with a panic, which
+// the caller may recover from - releases the client: the next call on the same client completes (no
+// deadlock) and sees an intact table.
+func VerifC11Aborted() {
+	c := vClient(false)
+	nd.Assert(AddIndex(vCtx, c, vTbl, vIdx, "g", "") == nil, "setup-addindex")
+	nd.Assert(vPut(c, vItem{"p": vS("k"), "g": vS("gv"), "v": vS("x")}) == nil, "setup-put")
+	tbl := aws.String(vTbl)
+	bad := aws.String("v = = :x")
+	vals := vItem{":x": vS("x")}
+	aborting := []func() error{
+		func() error {
+			_, e := c.Scan(vCtx, &dynamodb.ScanInput{TableName: tbl, FilterExpression: bad, ExpressionAttributeValues: vals})
+			return e
+		},
+		func() error {
+			_, e := c.Scan(vCtx, &dynamodb.ScanInput{TableName: tbl, IndexName: aws.String(vIdx), FilterExpression: bad, ExpressionAttributeValues: vals})
+			return e
+		},
+		func() error {
+			_, e := c.Query(vCtx, &dynamodb.QueryInput{TableName: tbl, KeyConditionExpression: aws.String("p = :p"), FilterExpression: bad, ExpressionAttributeValues: vItem{":p": vS("k"), ":x": vS("x")}})
+			return e
+		},
+		func() error {
+			_, e := c.Query(vCtx, &dynamodb.QueryInput{TableName: tbl, KeyConditionExpression: aws.String("p = = :p"), ExpressionAttributeValues: vItem{":p": vS("k")}})
+			return e
+		},
+		func() error {
+			_, e := c.PutItem(vCtx, &dynamodb.PutItemInput{TableName: tbl, Item: vItem{"p": vS("k")}, ConditionExpression: bad, ExpressionAttributeValues: vals})
+			return e
+		},
+		func() error {
+			_, e := c.UpdateItem(vCtx, &dynamodb.UpdateItemInput{TableName: tbl, Key: vItem{"p": vS("k")}, UpdateExpression: aws.String("SET v = :x"), ConditionExpression: bad, ExpressionAttributeValues: vals})
+			return e
+		},
+		func() error {
+			_, e := c.DeleteItem(vCtx, &dynamodb.DeleteItemInput{TableName: tbl, Key: vItem{"p": vS("k")}, ConditionExpression: bad, ExpressionAttributeValues: vals})
+			return e
+		},
+		func() error {
+			_, e := c.UpdateItem(vCtx, &dynamodb.UpdateItemInput{TableName: tbl, Key: vItem{"p": vS("k")}, UpdateExpression: aws.String("SET v = = :x"), ExpressionAttributeValues: vals})
+			return e
+		},
+		func() error {
+			_, e := c.BatchWriteItem(vCtx, &dynamodb.BatchWriteItemInput{RequestItems: map[string][]types.WriteRequest{vTbl: {{}}}})
+			return e
+		},
+		func() error {
+			_, e := c.GetItem(vCtx, &dynamodb.GetItemInput{TableName: tbl, Key: vItem{"p": vN("1")}})
+			return e
+		},
+		func() error {
+			_, e := c.Query(vCtx, &dynamodb.QueryInput{TableName: tbl, IndexName: aws.String("nosuch"), KeyConditionExpression: aws.String("p = :p"), ExpressionAttributeValues: vItem{":p": vS("k")}})
+			return e
+		},
+	}
+	err, panicked := vCatch(aborting[nd.Choice("call", len(aborting))])
+	nd.Assert(err != nil || panicked, "C11-malformed-request-is-refused")
+	if panicked {
+		nd.Reach("aborted-with-panic")
+	}
+	// the client is usable afterwards, through every kind of entry point
+	switch nd.Choice("next", 4) {
+	case 0:
+		nd.Assert(vPut(c, vItem{"p": vS("z")}) == nil, "C11-client-usable-after-aborted-call [PutItem]")
+	case 1:
+		out, serr := c.Scan(vCtx, &dynamodb.ScanInput{TableName: tbl})
+		nd.Assert(serr == nil && len(out.Items) == 1, "C11-client-usable-after-aborted-call [Scan]")
+	case 2:
+		_, derr := c.DescribeTable(vCtx, &dynamodb.DescribeTableInput{TableName: tbl})
+		nd.Assert(derr == nil, "C11-client-usable-after-aborted-call [DescribeTable]")
+	case 3:
+		EmulateFailure(c, FailureConditionNone)
+	}
+	vInvariant(c, "C11-aborted")
+	nd.Reach("end")
+}
